@@ -21,13 +21,13 @@ EXPLANATION = (
     "activation/defuzzifier parameter order and conversions, elided lines vs constructor defaults, registration of "
     "every concrete class (constructible without arguments), coverage of every persistent constructor field, rule "
     "keywords; no variable / rule block (classes with __len__) is used as a truth value anywhere in the package (T15); thorough tier also "
-    "checks the 61 shipped .fll files against the extracted tables"
+    "checks the 61 shipped .fll files against the extracted tables; every parameter of the exporter / importer methods is read (T16)"
 )
 ASSUMPTIONS = [
     "representability of numbers at settings.decimals and numeric equality after re-import are not decided",
     "identifier names and single-line descriptions without '#' (property precondition)",
 ]
-FLOORS = {"T15": 2, "T13": 3, "T14": 6, "T4": 30, "T5": 18, "T6": 23, "T7": 7, "T8": 6, "T9": 50, "T10": 20, "T11": 1}
+FLOORS = {"T16": 1, "T15": 2, "T13": 3, "T14": 6, "T4": 30, "T5": 18, "T6": 23, "T7": 7, "T8": 6, "T9": 50, "T10": 20, "T11": 1}
 
 KIND_BY_ANNOTATION = [("bool", "boolean"), ("float", "to_float"), ("SNorm", "snorm"), ("TNorm", "tnorm"),
                       ("Defuzzifier", "defuzzifier"), ("Activation", "activation"), ("str", "raw")]
@@ -68,6 +68,9 @@ def run(check: Check) -> None:
     from .common import component_truthiness
 
     component_truthiness(check, "T15")
+    from .common import unused_parameters
+
+    unused_parameters(check, "T16", {"FllExporter", "FllImporter", "Exporter", "Importer"})
     if check.tier == "thorough":
         corpus(check)
     check.exhaustive_parts += ["writer/reader tables compared entry by entry"]
